@@ -846,6 +846,28 @@ def search_exprs(ctx: Ctx) -> SearchResult:
 						e1 = rng.choice(['{{**{d}, {k}: {v}}}', '{{{k}: {v}, **{d}}}', '{{**{d}}}']).format(d=rng.choice(dsrc), k=k, v=v)
 					fns.append(e1 if r < 0.6 else f'{e1}[0]' if r < 0.75 else f'[z for z in {e1}]' if r < 0.85 else f'({e1}, a)')
 					continue
+				if i == 5 and rng.random() < 0.85:
+					# one list literal per program whose EARLIER items carry less type information than a later item of the same container
+					# class (empty list / dict / nested empties first): on_list (reflections.py:690-700) keeps one element type per class,
+					# the last one, so these are typed by the informative item. The opposite order (the empty one last) is typed
+					# list<list<Unknown>> (known finding list-literal-class-dedup), a dict literal whose FIRST value is an empty container
+					# dict<K, list<Unknown>> (known finding dict-literal-empty-first-value): low rate, alone.
+					empty, fulls = rng.choice([('[]', ['[a]', 'xs', '[a, c]', 'xs.copy()', '[s]', 'ys']), ('{}', ['{s: a}', 'd', '{"k": b}']), ('[[]]', ['[[a]]', 'xss', '[xs]']),
+						('{}', ['{s: [a]}', 'dd']), ('[]', ['[t]', '[(a, s)]']), ('[{}]', ['[d]', '[{s: a}]']), ('(a, [])', ['(c, [s])', '(a, ss)'])])
+					full = rng.choice(fulls)
+					r = rng.random()
+					if r < 0.1:
+						fns.append(rng.choice([f'[{full}, {empty}]', f'[{empty}, {full}, {empty}]']))
+						continue
+					if r < 0.17 and empty in ('[]', '{}'):
+						fns.append(f'{{s: {empty}, "zz": {full}}}')
+						continue
+					items = [empty] * rng.randint(1, 2) + [full] + ([full] if rng.random() < 0.3 else [])
+					e1 = '[' + ', '.join(items) + ']'
+					if r < 0.3:
+						e1 = f'{{s + "q": {full}, s: {empty}}}'       # the informative value first: right
+					fns.append(e1 if r < 0.65 else f'{e1}[{len(items) - 1}]' if r < 0.75 and e1[0] == '[' else f'[z for z in {e1}]' if r < 0.85 and e1[0] == '[' else f'({e1}, a)')
+					continue
 				if i == 0:
 					# one flat arithmetic chain per program (mixed operators of one precedence level, mixed int/bool/float operands)
 					fns.append(g.arith(rng.choice([X.FLOAT, X.INT]), 1).text)
@@ -1002,6 +1024,8 @@ STATEMENTS: dict[str, str] = {
 	'generic_attr_partial': 'an attribute of a generic class read on an instance (propOf = templates.Class.prop over the TemplateManipulator port, a pure function of declaration and receiver: no answer can depend on an earlier one) is the declared type with every class type variable replaced by the receiver\'s argument — proved for the nine declared shapes (variables up to three levels deep) × 5 × 5 arguments the generators build; generic_attr_statement (every declared type) is not proved',
 	'spread_items / sound_spread': 'on_spread (first type argument) equals the loop-variable type iterates answers for a list, a dict (keys) and Iterator<T> sources, for EVERY element type; hence the items CPython spreads conform to it (through sound_iter)',
 	'spread_tuple_counterexample': 'known finding spread-first-type-argument: for t = (1, "a") : tuple[int, str] on_spread answers int, CPython spreads a str too',
+	'on_list_last_of_class': 'on_list over items that all have one class keeps the LAST item\'s type (not the first, not the most informative), for every non-empty list of item types: [[], [n]] is typed by [n], [[n], []] by [] (the known finding)',
+	'dict_literal_counterexample': 'known finding dict-literal-empty-first-value: {"s": [], "z": [1]} is typed dict<str, list<Unknown>> — on_dict takes the first item whose value is not of CLASS Unknown (outside Core)',
 	'list_literal_counterexample': 'known finding list-literal-class-dedup: [[None], [1]] is typed list<list<int>> (outside Core)',
 	'dict_get_counterexample': 'known finding dict-get-missing-key: d.get("z") typed int, CPython returns None (outside Core)',
 	'abs_bool_counterexample': 'known finding abs-of-bool: abs(True) typed bool, CPython: int',
@@ -1021,7 +1045,7 @@ PARTIAL = {
 	'assumed_of_callees (sound_lambda_param)': 'a callee applies a callback declared Callable[[A...], R] to values of the types A (hypothesis ArgsConf; the typing obligation of the callee body, exhibited by the recorder search which observes the parameters inside lambda bodies); discharged for immediate calls',
 	'assumed_of_user_code (user operators)': 'pyUserOpTy: an operator method returns a value of its declared type, and no class declares a REFLECTED method for class operands with another result type than the forward method (CPython asks a subclass operand first only through a reflected method); hierarchies are tree-shaped',
 	'assumed_of_user_code (WorldConf)': 'constructor / method / property / class-variable / __next__ results conform to their DECLARED types (each method body\'s own typing obligation; method bodies are typed statement by statement by sound_decl / sound_conf but not executed by the model)',
-	'still_false_on_the_code (known findings)': 'list-literal-class-dedup, dict-get-missing-key, abs-of-bool, list-of-dict-items, boolop-nonbool-operands, tuple-slice-nonliteral-bounds, ternary-union-of-containers (each with a proved counterexample outside Core), min-max-mixed-numeric, union-of-subclasses-attribute, explicit-init-call, generic-method-on-indirect-subclass, generic-method-nested-type-argument, shift-reflected-user-operand (floats / user classes / lambdas are outside the model: corpus witness only), operator-operand-indirect-subclass, spread-first-type-argument (proved counterexamples); every one is generated at a low rate and replayed from corpus/C03 first',
+	'still_false_on_the_code (known findings)': 'list-literal-class-dedup, dict-literal-empty-first-value, dict-get-missing-key, abs-of-bool, list-of-dict-items, boolop-nonbool-operands, tuple-slice-nonliteral-bounds, ternary-union-of-containers (each with a proved counterexample outside Core), min-max-mixed-numeric, union-of-subclasses-attribute, explicit-init-call, generic-method-on-indirect-subclass, generic-method-nested-type-argument, shift-reflected-user-operand (floats / user classes / lambdas are outside the model: corpus witness only), operator-operand-indirect-subclass, spread-first-type-argument (proved counterexamples); every one is generated at a low rate and replayed from corpus/C03 first',
 }
 
 ASSUMPTIONS = [
@@ -1030,7 +1054,7 @@ ASSUMPTIONS = [
 	'at most one ill-typed atom per generated expression (error precedence between two faults inside a comprehension is not modelled)',
 	'outside the quantifier (not generated by the search; the infer stream still pins what the code answers): programs CPython rejects at run time although the stub accepts them (a | 1.5, a << 1.5, "s" & a: not well-typed); operations the stub library does not declare (list + list, bool ^ bool, float % bool, str * bool, iteration over str / tuple, list(str)): tranp refuses them with OperationNotAllowed / UnresolvedSymbol = outside the supported subset; assigning the result of list.remove (typed T_Value by the stub, None in CPython: Python type checkers reject the use of that value)',
 	'pytype domain: |int| < 2^50, finite floats of moderate magnitude, containers up to 64 items, ASCII strings (enforced at run time by a checker around every intermediate value; outside cases are discarded, not compared)',
-	'search oracle: only determined run-time types are compared; the value of an expression statement is not compared; type arguments of user generics are erased at run time and not compared; instances of a subclass are accepted for the declared base class',
+	'search oracle: only determined run-time types are compared (an empty container among the items of a container counts as an instance of its siblings\' type: [[], [1]] is a list of int lists); the value of an expression statement is not compared; type arguments of user generics are erased at run time and not compared; instances of a subclass are accepted for the declared base class',
 ]
 
 TRUSTED = [
